@@ -360,6 +360,22 @@ def rule_terminal(ctx):
     rep = zero_rets.get("repetition")
     ok = rep is not None and rep[1][0] == "call" and mir.strip_copies(rep[1][2][1])[-2:] == ("board", "zkey")
     ctx.check(ok, "alpha_beta:repetition-draw", "position_reached(current key) returns 0", b.where(rep[0] if rep else 0), bad_what="no `position_reached(self.board.zkey) -> 0` exit")
+    # "iff": nothing else decides these two draws
+    for name, blk in (("fifty", zero_rets.get("fifty")), ("repetition", rep[0] if rep else None)):
+        if blk is None:
+            continue
+        extra = []
+        for c in C.constraints_for(ix, b, sym, blk):
+            e = c[3]
+            if e[0] == "call" and (C.predicate_polarity(ix, e, "running") is not None or C.predicate_polarity(ix, e, "limits") is not None):
+                continue
+            if "get_halfmove_clock" in c[0] and e[0] == "bin" and e[1] == "Ge" and e[3] == ("const", 100, "u16"):
+                continue
+            if name == "repetition" and e[0] == "call" and e[1] == "board::Board::position_reached":
+                continue
+            extra.append((c[0][:70], sorted(map(str, c[1]))))
+        ctx.check(not extra, "alpha_beta:%s-draw-unconditional" % name, "the %s draw depends on nothing else" % name, b.where(blk),
+                  bad_what="the %s draw is additionally conditioned on %s: positions the reference game scores as an immediate draw are searched on" % (name, extra))
     # draw tests come before the cache probe (a cached score must not override a draw by history)
     probes = [bi for bi, t in b.calls() if callee_is(t, "std::collections::HashMap::get")]
     if rep and probes and "fifty" in zero_rets:
